@@ -1,26 +1,6 @@
 // ---- trusted std contracts: str / char / String (assumed, never proved; listed in evidence) ----
 verus! {
 
-// number of UTF-8 bytes of a char (std: char::len_utf8)
-pub open spec fn utf8_len(c: char) -> nat {
-    if (c as u32) < 0x80 { 1 } else if (c as u32) < 0x800 { 2 } else if (c as u32) < 0x10000 { 3 } else { 4 }
-}
-
-// byte offset of the k-th char of s
-pub open spec fn utf8_offset(s: Seq<char>, k: int) -> nat
-    decreases k
-{
-    if k <= 0 { 0 } else { utf8_offset(s, k - 1) + utf8_len(s[k - 1]) }
-}
-
-pub proof fn lemma_utf8_offset_pos(s: Seq<char>, k: int)
-    requires k > 0
-    ensures utf8_offset(s, k) > 0
-    decreases k
-{
-    if k > 1 { lemma_utf8_offset_pos(s, k - 1); }
-}
-
 // Unicode predicates / mappings: uninterpreted outside ASCII, so every proof that uses them holds
 // for every interpretation of the non-ASCII part.
 pub uninterp spec fn spec_is_uppercase(c: char) -> bool;
@@ -32,20 +12,17 @@ pub open spec fn is_ascii_lower(c: char) -> bool { 'a' <= c && c <= 'z' }
 pub open spec fn is_ascii_digit(c: char) -> bool { '0' <= c && c <= '9' }
 pub open spec fn is_ascii(c: char) -> bool { (c as u32) < 0x80 }
 
-pub broadcast proof fn axiom_is_uppercase_ascii(c: char)
+pub broadcast axiom fn axiom_is_uppercase_ascii(c: char)
     requires is_ascii(c)
-    ensures #[trigger] spec_is_uppercase(c) == is_ascii_upper(c)
-{ admit(); }
+    ensures #[trigger] spec_is_uppercase(c) == is_ascii_upper(c);
 
-pub broadcast proof fn axiom_is_alphanumeric_ascii(c: char)
+pub broadcast axiom fn axiom_is_alphanumeric_ascii(c: char)
     requires is_ascii(c)
-    ensures #[trigger] spec_is_alphanumeric(c) == (is_ascii_upper(c) || is_ascii_lower(c) || is_ascii_digit(c))
-{ admit(); }
+    ensures #[trigger] spec_is_alphanumeric(c) == (is_ascii_upper(c) || is_ascii_lower(c) || is_ascii_digit(c));
 
-pub broadcast proof fn axiom_is_numeric_ascii(c: char)
+pub broadcast axiom fn axiom_is_numeric_ascii(c: char)
     requires is_ascii(c)
-    ensures #[trigger] spec_is_numeric(c) == is_ascii_digit(c)
-{ admit(); }
+    ensures #[trigger] spec_is_numeric(c) == is_ascii_digit(c);
 
 pub open spec fn ascii_lower(c: char) -> char {
     if is_ascii_upper(c) { ((c as u8) + 32) as char } else { c }
@@ -93,21 +70,23 @@ pub open spec fn spec_replace_char(s: Seq<char>, from: char, to: Seq<char>) -> S
 pub trait ExPattern: Sized {
     type ExternalTraitSpecificationFor: core::str::pattern::Pattern;
 }
-// what a generic `P: Pattern` argument denotes when P = char (trusted: two axioms below)
-pub uninterp spec fn pat_is_char<P>() -> bool;
-pub uninterp spec fn pat_char<P>(p: P) -> char;
-pub broadcast proof fn axiom_pat_char(c: char)
-    ensures pat_is_char::<char>(), #[trigger] pat_char::<char>(c) == c
-{ admit(); }
+// what a generic `P: Pattern` argument denotes when P = char (trusted: axiom below)
+pub uninterp spec fn pat_char_of<P>(p: P) -> Option<char>;
+pub broadcast axiom fn axiom_pat_char(c: char)
+    ensures #[trigger] pat_char_of::<char>(c) == Some(c);
 pub assume_specification<P: core::str::pattern::Pattern>[ str::replace::<P> ](s: &str, from: P, to: &str) -> (r: String)
-    ensures pat_is_char::<P>() ==> r@ == spec_replace_char(s@, pat_char(from), to@);
+    ensures pat_char_of(from) is Some ==> r@ == spec_replace_char(s@, pat_char_of(from)->0, to@);
 
 pub assume_specification[ String::with_capacity ](n: usize) -> (r: String)
     ensures r@ == Seq::<char>::empty();
 
-// char_indices: (byte offset, char) pairs
+// char_indices: (byte offset, char) pairs. Offsets are uninterpreted except: offset == 0 exactly for the first char.
+pub uninterp spec fn char_offset(s: Seq<char>, k: int) -> usize;
+pub broadcast axiom fn axiom_char_offset_zero(s: Seq<char>, k: int)
+    requires 0 <= k < s.len()
+    ensures (#[trigger] char_offset(s, k) == 0) <==> k == 0;
 pub open spec fn spec_char_indices(s: Seq<char>) -> Seq<(usize, char)> {
-    Seq::new(s.len(), |k: int| (utf8_offset(s, k) as usize, s[k]))
+    Seq::new(s.len(), |k: int| (char_offset(s, k), s[k]))
 }
 
 #[verifier::external_type_specification]
@@ -125,5 +104,38 @@ pub assume_specification<'a>[ str::char_indices ](s: &'a str) -> (it: core::str:
 pub fn vx_string_add(a: String, b: &str) -> (r: String)
     ensures r@ == a@ + b@
 { a + b }
+
+// str slicing at byte index 1 (`x[..1]`, `x[1..]`): defined iff x is non-empty and its first char is one byte long.
+// Stated through call_requires / call_ensures of Index::index (vstd's own precondition is a disjunct of these).
+#[verifier::inline] pub open spec fn idx_req<T: ?Sized + core::ops::Index<I>, I>(s: &T, i: I) -> bool { call_requires(T::index, (s, i)) }
+#[verifier::inline] pub open spec fn idx_ens<T: ?Sized + core::ops::Index<I>, I>(s: &T, i: I, out: &T::Output) -> bool { call_ensures(T::index, (s, i), out) }
+pub broadcast axiom fn axiom_str_index_to_1(s: &str, r: core::ops::RangeTo<usize>)
+    requires r.end == 1, s@.len() > 0, is_ascii(s@[0])
+    ensures #[trigger] idx_req::<str, core::ops::RangeTo<usize>>(s, r);
+pub broadcast axiom fn axiom_str_index_to_1_val(s: &str, r: core::ops::RangeTo<usize>, out: &str)
+    requires r.end == 1, s@.len() > 0, is_ascii(s@[0]), #[trigger] idx_ens::<str, core::ops::RangeTo<usize>>(s, r, out)
+    ensures out@ == s@.take(1);
+pub broadcast axiom fn axiom_str_index_from_1(s: &str, r: core::ops::RangeFrom<usize>)
+    requires r.start == 1, s@.len() > 0, is_ascii(s@[0])
+    ensures #[trigger] idx_req::<str, core::ops::RangeFrom<usize>>(s, r);
+pub broadcast axiom fn axiom_str_index_from_1_val(s: &str, r: core::ops::RangeFrom<usize>, out: &str)
+    requires r.start == 1, s@.len() > 0, is_ascii(s@[0]), #[trigger] idx_ens::<str, core::ops::RangeFrom<usize>>(s, r, out)
+    ensures out@ == s@.skip(1);
+pub broadcast axiom fn axiom_string_index_to_1(s: &String, r: core::ops::RangeTo<usize>)
+    requires r.end == 1, s@.len() > 0, is_ascii(s@[0])
+    ensures #[trigger] idx_req::<String, core::ops::RangeTo<usize>>(s, r);
+pub broadcast axiom fn axiom_string_index_to_1_val(s: &String, r: core::ops::RangeTo<usize>, out: &str)
+    requires r.end == 1, s@.len() > 0, is_ascii(s@[0]), #[trigger] idx_ens::<String, core::ops::RangeTo<usize>>(s, r, out)
+    ensures out@ == s@.take(1);
+pub broadcast axiom fn axiom_string_index_from_1(s: &String, r: core::ops::RangeFrom<usize>)
+    requires r.start == 1, s@.len() > 0, is_ascii(s@[0])
+    ensures #[trigger] idx_req::<String, core::ops::RangeFrom<usize>>(s, r);
+pub broadcast axiom fn axiom_string_index_from_1_val(s: &String, r: core::ops::RangeFrom<usize>, out: &str)
+    requires r.start == 1, s@.len() > 0, is_ascii(s@[0]), #[trigger] idx_ens::<String, core::ops::RangeFrom<usize>>(s, r, out)
+    ensures out@ == s@.skip(1);
+pub broadcast group group_str_slice_1 {
+    axiom_string_index_to_1, axiom_string_index_to_1_val, axiom_string_index_from_1, axiom_string_index_from_1_val,
+    axiom_str_index_to_1, axiom_str_index_to_1_val, axiom_str_index_from_1, axiom_str_index_from_1_val,
+}
 
 } // verus!
